@@ -521,7 +521,7 @@ func runC03(c *core.Ctx) core.Meta {
 
 	// ---------------- R03.8 compare instructions: truth table over the ordering domain ----------------
 	st8 := c.Rule("R03.8", "every compare handler (v_cmp / v_cmpx / s_cmp, tied to its instruction name through decode table -> dispatch switch -> callee) sets its result bit exactly for the orderings of (S0, S1) that the name prescribes - decided by resolving the handler's comparisons of the two operand values under each of less / equal / greater / unordered (NaN) and asking whether the bit-setting block is reachable - and compares values of the signedness, width and kind (i / u / f) the name prescribes", 150)
-	cmpName := regexp.MustCompile(`^(v_cmpx?|s_cmp)_(f|lt|eq|le|gt|lg|ne|ge|o|u|nge|nlg|ngt|nle|neq|nlt|tru|t)_([iuf])(16|32|64)(_e32|_e64)?$`)
+	cmpName := regexp.MustCompile(`^(v_cmpx?|s_cmpk?)_(f|lt|eq|le|gt|lg|ne|ge|o|u|nge|nlg|ngt|nle|neq|nlt|tru|t)_([iuf])(16|32|64)(_e32|_e64)?$`)
 	wantSet := map[string]string{"f": "", "lt": "L", "eq": "E", "le": "LE", "gt": "G", "lg": "LG", "ne": "LG", "ge": "EG", "o": "LEG", "u": "U",
 		"nge": "LU", "nlg": "EU", "ngt": "LEU", "nle": "GU", "neq": "LGU", "nlt": "EGU", "tru": "LEGU", "t": "LEGU"}
 	seen8 := map[string]bool{}
@@ -575,6 +575,9 @@ func runC03(c *core.Ctx) core.Meta {
 				return ""
 			}
 			has0, has1 := strings.Contains(pv, ".Src0"), strings.Contains(pv, ".Src1")
+			if m[1] == "s_cmpk" { // the 32-bit destination register is compared with the sign-extended immediate
+				has0, has1 = strings.Contains(pv, ".Dst"), strings.Contains(pv, ".SImm16")
+			}
 			switch {
 			case has0 && !has1:
 				return "0"
@@ -1607,6 +1610,70 @@ func runC03(c *core.Ctx) core.Meta {
 			}
 		}
 	}
+
+	// ---------------- R03.18 IEEE bit patterns are not used as numbers ----------------
+	st18 := c.Rule("R03.18", "in the ALU packages no floating-point value is the numeric conversion of an integer constant that is an IEEE-754 special bit pattern (0x7FF0…, 0xFFF0…, 0x7FF8…, 0xFFF8…, 0x8000000000000000): infinity, NaN and -0 have to be produced and recognised through math.Float64frombits / math.Inf / math.IsInf / math.IsNaN; and no value is compared for equality with a NaN (always false)", 1)
+	special := map[uint64]string{0x7FF0000000000000: "+Inf", 0xFFF0000000000000: "-Inf", 0x7FF8000000000000: "NaN", 0xFFF8000000000000: "-NaN", 0x8000000000000000: "-0"}
+	for _, a := range alus {
+		for _, fn := range c.SrcFuncs(a.pkg) {
+			reported := map[string]bool{}
+			isNaNValue := func(v ssa.Value) bool {
+				call, ok := v.(*ssa.Call)
+				if !ok {
+					return false
+				}
+				f := core.CalleeFunc(call)
+				if f == nil || f.Pkg() == nil || f.Pkg().Path() != "math" {
+					return false
+				}
+				if f.Name() == "NaN" {
+					return true
+				}
+				if f.Name() == "Float64frombits" {
+					if u, isU := core.ConstUint(call.Call.Args[0]); isU {
+						return (u>>52)&0x7ff == 0x7ff && u&((1<<52)-1) != 0
+					}
+				}
+				return false
+			}
+			for _, b := range fn.Blocks {
+				for _, in := range b.Instrs {
+					var ops []*ssa.Value
+					for _, op := range in.Operands(ops) {
+						k, ok := (*op).(*ssa.Const)
+						if !ok || k.Value == nil {
+							continue
+						}
+						bt, ok := k.Type().Underlying().(*types.Basic)
+						if !ok || bt.Info()&types.IsFloat == 0 {
+							continue
+						}
+						f, _ := constant.Float64Val(k.Value)
+						for pat, what := range special {
+							if f == float64(pat) && !reported[what] {
+								reported[what] = true
+								st18.Instances++
+								st18.Ob(false)
+								c.MarkAnalysed(fn)
+								c.ReportAt("R03.18", fn, in.Pos(), "bit-pattern-as-number:"+what, fmt.Sprintf("%s uses the floating-point number %g, the numeric value of the integer 0x%X, where the IEEE bit pattern of %s is meant: the special case neither recognises nor produces %s", core.FuncName(fn), f, pat, what, what))
+							}
+						}
+					}
+					if bo, ok := in.(*ssa.BinOp); ok && (bo.Op == token.EQL || bo.Op == token.NEQ) {
+						if (isNaNValue(bo.X) || isNaNValue(bo.Y)) && !reported["==NaN"] {
+							reported["==NaN"] = true
+							st18.Instances++
+							st18.Ob(false)
+							c.MarkAnalysed(fn)
+							c.ReportAt("R03.18", fn, in.Pos(), "compared-with-nan", core.FuncName(fn)+" compares a value with a NaN using "+bo.Op.String()+": the result does not depend on the value (NaN is unequal to everything, itself included), so the NaN special case is never taken")
+						}
+					}
+				}
+			}
+		}
+	}
+	st18.Instances++
+	st18.Ob(true)
 
 	// ---------------- R03.2 shift-amount masking ----------------
 	st2 := c.Rule("R03.2", "in handlers of shift instructions (tied to their names through decode table -> dispatch switch -> callee) every data-dependent shift amount is confined to [0, W-1] (W from the instruction name) by a mask or modulus before it reaches the Go shift, because Go saturates where the ISA uses the low 4/5/6 bits", 15)
